@@ -196,22 +196,37 @@ type evConn struct {
 	name   string
 	wrote  bytes.Buffer
 	closed bool
+	// read deadline as set by the server.  The peer has sent `first` and stays silent, so a read that finds
+	// no more data reports a timeout as soon as ANY deadline is set (the 15 s of readFirstPacket "elapse";
+	// net/http's abortPendingRead sets one in the past); without a deadline it parks until Close.
+	deadline time.Time
+	dlCh     chan struct{} // closed (and replaced) whenever a non-zero deadline is set
 }
 
 func newEvConn(name string, first []byte, ev chan string) *evConn {
-	return &evConn{rd: bytes.NewReader(first), block: make(chan struct{}), ev: ev, name: name}
+	return &evConn{rd: bytes.NewReader(first), block: make(chan struct{}), ev: ev, name: name, dlCh: make(chan struct{})}
 }
 
 func (c *evConn) Read(p []byte) (int, error) {
-	c.mu.Lock()
-	if c.rd.Len() > 0 {
-		n, _ := c.rd.Read(p)
+	for {
+		c.mu.Lock()
+		if c.rd.Len() > 0 {
+			n, _ := c.rd.Read(p)
+			c.mu.Unlock()
+			return n, nil
+		}
+		if !c.deadline.IsZero() {
+			c.mu.Unlock()
+			return 0, os.ErrDeadlineExceeded
+		}
+		ch := c.dlCh
 		c.mu.Unlock()
-		return n, nil
+		select {
+		case <-c.block:
+			return 0, io.EOF
+		case <-ch:
+		}
 	}
-	c.mu.Unlock()
-	<-c.block
-	return 0, io.EOF
 }
 func (c *evConn) Write(p []byte) (int, error) {
 	c.mu.Lock()
@@ -223,7 +238,10 @@ func (c *evConn) Write(p []byte) (int, error) {
 	c.wrote.Write(p)
 	c.mu.Unlock()
 	if first {
-		c.ev <- c.name + ":write"
+		select {
+		case c.ev <- c.name + ":write":
+		default:
+		}
 	}
 	return len(p), nil
 }
@@ -248,8 +266,17 @@ func (c *evConn) written() []byte {
 }
 func (c *evConn) LocalAddr() net.Addr                { return &net.TCPAddr{IP: net.IPv4(127, 0, 0, 1), Port: 443} }
 func (c *evConn) RemoteAddr() net.Addr               { return &net.TCPAddr{IP: net.IPv4(127, 0, 0, 1), Port: 50000} }
-func (c *evConn) SetDeadline(t time.Time) error      { return nil }
-func (c *evConn) SetReadDeadline(t time.Time) error  { return nil }
+func (c *evConn) SetDeadline(t time.Time) error      { return c.SetReadDeadline(t) }
+func (c *evConn) SetReadDeadline(t time.Time) error {
+	c.mu.Lock()
+	c.deadline = t
+	if !t.IsZero() {
+		close(c.dlCh)
+		c.dlCh = make(chan struct{})
+	}
+	c.mu.Unlock()
+	return nil
+}
 func (c *evConn) SetWriteDeadline(t time.Time) error { return nil }
 
 // ---- subprocess runner for virtual-time sub-scenarios ----
@@ -257,7 +284,7 @@ func (c *evConn) SetWriteDeadline(t time.Time) error { return nil }
 // runChild re-executes this binary with `<name> <args…>` as scenario words, then folds the child's
 // T/V/S/X/N rows into the parent's output.
 func runChild(c *ctx, name string, args ...string) error {
-	tmp, err := os.CreateTemp("", "verifchild-*.trace")
+	tmp, err := os.CreateTemp(".", "verifchild-*.trace")
 	if err != nil {
 		return err
 	}
